@@ -190,6 +190,12 @@ impl BuildSystem {
         config: &GenerateConfig,
     ) -> Result<Vec<String>, Box<dyn std::error::Error>> {
         let mut analyzer = CommandAnalyzer::new();
+
+        // Apply custom type mappings from configuration (as the CLI does)
+        if let Some(ref mappings) = config.type_mappings {
+            analyzer.add_type_mappings(mappings);
+        }
+
         let commands = analyzer.analyze_project(&config.project_path)?;
 
         if commands.is_empty() {
